@@ -116,6 +116,14 @@ def gen_case(rng, tier, g):
             args['truncate'] = rng.choice([None, None, 2])
             if rng.random() < 0.3:
                 args['errors'] = 'xmlcharrefreplace'
+            if rng.random() < 0.3:
+                args['vrepr'] = rng.choice(['repr', 'upper'])
+            if rng.random() < 0.3:
+                args['tr_style'] = rng.choice(['color: red', '@first',
+                                               '@len'])
+            if rng.random() < 0.3:
+                args['td_styles'] = rng.choice(['font: x', '@value',
+                                                '@dict-str', '@dict-fn'])
         table = _text_table(rng, maxrows)
         n = len(table) - 1
         history = rng.choice(['full', 'full', 'partial-close-full',
@@ -171,8 +179,31 @@ class _Bad(Exception):
         self.msg = msg
 
 
+def _html_args(a):
+    # callables travel by name in the (JSON) case
+    if a.get('vrepr') == 'repr':
+        a['vrepr'] = repr
+    elif a.get('vrepr') == 'upper':
+        a['vrepr'] = lambda v: str(v).upper()
+    if a.get('tr_style') == '@first':
+        a['tr_style'] = lambda rec: 'x: %s' % (rec[0],) if len(rec) else ''
+    elif a.get('tr_style') == '@len':
+        a['tr_style'] = lambda rec: 'n: %d' % len(rec)
+    ts = a.get('td_styles')
+    if ts == '@value':
+        a['td_styles'] = lambda v: 'v: %s' % (v,) if v else ''
+    elif ts == '@dict-str':
+        a['td_styles'] = {'a': 'col: a', 'zz': 'never'}
+    elif ts == '@dict-fn':
+        a['td_styles'] = {'a': lambda v: 'len: %d' % len(str(v)),
+                          'b': 'col: b'}
+    return a
+
+
 def _to(e, fmt, table, src, args):
     a = dict(args)
+    if fmt == 'html':
+        a = _html_args(a)
     if fmt == 'csv':
         e.tocsv(table, src, **a)
     elif fmt == 'tsv':
@@ -187,6 +218,8 @@ def _to(e, fmt, table, src, args):
 
 def _tee(e, fmt, table, src, args):
     a = dict(args)
+    if fmt == 'html':
+        a = _html_args(a)
     if fmt == 'csv':
         return e.teecsv(table, src, **a)
     if fmt == 'tsv':
